@@ -51,7 +51,7 @@ def main():
                     if value != NULL:
                         print(value)
                 except CklRuntimeError as e:
-                    print(str(e.value.asString().value)
+                    print(str(e.value.value if e.value.isString() else e.value)
                           + ": " + str(e.msg)
                           + " (Line " + str(e.pos) + ")")
                     if e.stacktrace:
